@@ -51,6 +51,7 @@ type xTrial struct {
 	fails   []string
 	varsSeen string
 	ctxTag  int
+	nnThunks bool
 	tags    map[string]bool
 	root    map[string]interface{}
 }
@@ -200,7 +201,8 @@ func (t *xTrial) adversarial(r *Rng, ty *xTy) interface{} {
 	case "Int", "Odd":
 		return append(nullish, "x", 2147483648, -2147483649, 1.5, true, []interface{}{1}, xChan, 4)[r.Intn(10)]
 	case "Float":
-		return append(nullish, "x", true, []interface{}{1}, xChan)[r.Intn(7)]
+		// "NaN" parses as a float that is nullish only after serialisation
+		return append(nullish, "x", true, []interface{}{1}, xChan, "NaN", "nan")[r.Intn(9)]
 	case "Boolean":
 		return append(nullish, "x", "", "false", 0, 3, 1.5, xChan, []interface{}{1})[r.Intn(11)]
 	case "String", "ID":
@@ -351,7 +353,12 @@ func (t *xTrial) resolve(p graphql.ResolveParams) (interface{}, error) {
 	h := fnv.New64a()
 	h.Write([]byte(ps))
 	r := NewRng(t.seed, h.Sum64())
-	o := t.pick(r, pf.Type, true)
+	// thunks in non-null positions are drawn only in trials marked for them (known finding: they are
+	// forced by the dethunk pass, where a failure nulls the whole response)
+	o := t.pick(r, pf.Type, pf.Type.Kind != "nonnull" || t.nnThunks)
+	if o.kind == "thunk" && pf.Type.Kind == "nonnull" {
+		t.tags["nonnull-thunk"] = true
+	}
 	t.oracle = append(t.oracle, "("+pc+", "+t.outcomeCoq(o)+")")
 	if o.kind == "thunk" {
 		t.tags["thunk"] = true
@@ -498,7 +505,7 @@ type xObserved struct {
 
 func xRun(rq *xRequest) *xObserved {
 	t := &xTrial{s: rq.s, seed: rq.seed, pol: rq.pol, callPaths: map[string]int{}, tags: map[string]bool{}, ctxTag: int(rq.seed%1000) + 1,
-		root: map[string]interface{}{"__root": int(rq.seed % 77)}}
+		root: map[string]interface{}{"__root": int(rq.seed % 77)}, nnThunks: NewRng(rq.seed, 4242).Chance(10)}
 	b, err := rq.s.build(&xHooks{Resolve: t.resolve, ResolveType: t.resolveType, IsTypeOf: t.isTypeOf})
 	if err != nil {
 		return &xObserved{fails: []string{"generated schema rejected: " + err.Error()}, invalid: true}
